@@ -8,7 +8,7 @@
         -> "TREE <tree> | ERRS <n>"                      (tree builder on recorded tokens)
    SER <tree>         ( prefix ns local n (prefix ns local value)* kids ) | X s | C s | P t d | D n p s
         -> "SER <code points, decimal> | TOKS <tokens the items denote> | TREE <tree built from them> | ERRS n
-            | FLAGS clean= adequate= roundtrip= hyps="   (ser_clean, adequate, roundtrip_tok,
+            | FLAGS cons= adequate= roundtrip= hyps="   (forest_cons, adequate, roundtrip_tok,
                rt_hyps = the hypotheses of C17_roundtrip_partial)
    LEX <t|a> <string> -> lex_text / lex_attr_value of escape(string) ++ terminator  *)
 
@@ -142,11 +142,11 @@ let () =
           let items = ser_doc nodes in
           let toks = List.map (fun i -> tokenize (item_rtoken i)) items in
           let b x = if x then "1" else "0" in
-          Printf.sprintf "SER %s | TOKS %s | %s | FLAGS clean=%s adequate=%s roundtrip=%s hyps=%s"
+          Printf.sprintf "SER %s | TOKS %s | %s | FLAGS cons=%s adequate=%s roundtrip=%s hyps=%s"
             (String.concat " " (List.map (fun c -> string_of_int (int_of_n c)) (render items)))
             (String.concat " " (List.map show_token toks))
             (show_state (run (toks @ [TEof])))
-            (b (ser_clean nodes)) (b (adequate items [])) (b (roundtrip_tok nodes)) (b (rt_hyps nodes))
+            (b (forest_cons nodes)) (b (adequate items [])) (b (roundtrip_tok nodes)) (b (rt_hyps nodes))
         | ["LEX"; m; s] ->
           let s = dec s in
           let attr_mode = (m = "a") in
